@@ -82,7 +82,7 @@ def tree_hash():
     return _hash[0]
 
 
-def evict_cache(keep=5):
+def evict_cache(keep=10):
     """keep only the most recently used tree states (disk space)"""
     try:
         ents = [(os.path.getmtime(os.path.join(CACHE, e)), e) for e in os.listdir(CACHE)]
